@@ -234,7 +234,7 @@ class C14(common.Check):
                   "security context": "stub (StubCtx) where auth is on", "transport": "simulated (SimSocket / SimTransport on SimLoop)"}
     assumptions = ["TCP delivers bytes in order; segment boundaries and stream end are arbitrary",
                    "a sync read that can never complete is reported as 'blocks' (violation only after EOF/RST, never for a silent open peer)"]
-    required_fired = ("seg", "seg_in_header", "eof", "rst", "stall", "pairs", "gap", "clock_jump")
+    required_fired = ("seg", "seg_in_header", "eof", "rst", "stall", "pairs", "gap", "clock_jump", "close_right_after_complete_reply")
 
     def exhaustive(self, tier):
         return True
@@ -293,6 +293,11 @@ class C14(common.Check):
                             out.append([si, fl, "gap", a, k])
                         for k in range(4):
                             out.append([si, fl, "clockjump", a, k])
+                # the peer sends the complete reply and closes at once (FIN queued behind the data): the reply is as good as any other
+                if sc[0] in ("response", "fault") or (sc[0] == "bind" and not sc[1]):
+                    for a in sorted({0, 1, 15, 16, 17, max(1, n // 2), n - 1}):
+                        if 0 <= a < n:
+                            out.append([si, fl, "eofafter", a, 0])
         # two async connections in flight at once (different replies, cut at / around the header boundary)
         k = 0
         for si in range(len(SCENARIOS)):
@@ -321,6 +326,10 @@ class C14(common.Check):
             d = {"mode": "cuts", "cuts": {str(tm): [a]}, "gaps": [[tm, 1, (0.05, 0.5, 2.0, 4.0)[b]]] + ([[tm, 0, 0.2]] if b % 2 else [])}
         elif mode == "clockjump":
             d = {"mode": "cuts", "cuts": {str(tm): [a]}, "clock_jumps": [[tm, 1, (61.0, 3600.0, -3600.0, 86400.0 * 400)[b]]] + ([[tm, 0, 75.0]] if b == 0 else [])}
+        elif mode == "eofafter":
+            d = {"eof_at": [tm, n]}
+            if a:
+                d.update({"mode": "cuts", "cuts": {str(tm): [a]}})
         elif mode in ("eof", "rst", "stall"):
             d = {mode + "_at": [tm, a]}
             if b:
@@ -334,10 +343,12 @@ class C14(common.Check):
         probes = {}
         if mode in ("gap", "clockjump"):
             probes["pause_between_segments" if mode == "gap" else "wall_clock_step_while_pending"] = 1
-        if mode in ("cuts", "bytewise", "rand", "gap", "clockjump"):
+        if mode == "eofafter":
+            probes["close_right_after_complete_reply"] = 1
+        if mode in ("cuts", "bytewise", "rand", "gap", "clockjump", "eofafter"):
             if not out.same_as(base):
                 kind, frame = drive.exc_sig(out)
-                cond = ("pause-" if mode == "gap" else "clock-step-" if mode == "clockjump" else "") + ("header-split" if world.stats.get("seg_in_header") else "body-split")
+                cond = ("pause-" if mode == "gap" else "clock-step-" if mode == "clockjump" else "closed-after-" if mode == "eofafter" else "") + ("header-split" if world.stats.get("seg_in_header") else "body-split")
                 viol = common.violation("C14", "reassembly", fl, kind, frame, cond,
                                         f"scenario={sc} delivery={d}: one-piece outcome {base.brief()} but got {out.brief()} {out.exc!r}")
         elif mode in ("eof", "rst"):
